@@ -676,7 +676,10 @@ static void dsp_sched_run(ABT_sched sched)
             ABT_OK(ABT_unit_set_associated_pool(unit, D.w[v->to])); /* documented as a no-op */
             D.run_unit_calls++;
             D.placed[v->from][v->to]++;
-            ABT_OK(ABT_xstream_run_unit(unit, D.w[v->to]));
+            if (v->id & 1)
+                ABT_OK(ABT_self_schedule(t, D.w[v->to])); /* the work-unit-handle spelling of the same */
+            else
+                ABT_OK(ABT_xstream_run_unit(unit, D.w[v->to]));
             D.dsp_left--;
             ran = 1;
             sim_progress();
